@@ -219,7 +219,9 @@ func (s *BaseVisitor) EnterOC_QueryOptions(c *parser.OC_QueryOptionsContext) {}
 
 func (s *BaseVisitor) EnterOC_AnyCypherOption(c *parser.OC_AnyCypherOptionContext) {}
 
-func (s *BaseVisitor) EnterOC_CypherOption(c *parser.OC_CypherOptionContext) {}
+func (s *BaseVisitor) EnterOC_CypherOption(c *parser.OC_CypherOptionContext) {
+	s.newUnsupportedRuleError(c)
+}
 
 func (s *BaseVisitor) EnterOC_VersionNumber(c *parser.OC_VersionNumberContext) {}
 
@@ -276,7 +278,9 @@ func (s *BaseVisitor) EnterOC_RelationshipPropertyExistenceConstraint(c *parser.
 func (s *BaseVisitor) EnterOC_RelationshipPatternSyntax(c *parser.OC_RelationshipPatternSyntaxContext) {
 }
 
-func (s *BaseVisitor) EnterOC_LoadCSV(c *parser.OC_LoadCSVContext) {}
+func (s *BaseVisitor) EnterOC_LoadCSV(c *parser.OC_LoadCSVContext) {
+	s.newUnsupportedRuleError(c)
+}
 
 func (s *BaseVisitor) EnterOC_Match(c *parser.OC_MatchContext) {}
 
@@ -288,7 +292,9 @@ func (s *BaseVisitor) EnterOC_MergeAction(c *parser.OC_MergeActionContext) {}
 
 func (s *BaseVisitor) EnterOC_Create(c *parser.OC_CreateContext) {}
 
-func (s *BaseVisitor) EnterOC_CreateUnique(c *parser.OC_CreateUniqueContext) {}
+func (s *BaseVisitor) EnterOC_CreateUnique(c *parser.OC_CreateUniqueContext) {
+	s.newUnsupportedRuleError(c)
+}
 
 func (s *BaseVisitor) EnterOC_Set(c *parser.OC_SetContext) {}
 
@@ -300,9 +306,13 @@ func (s *BaseVisitor) EnterOC_Remove(c *parser.OC_RemoveContext) {}
 
 func (s *BaseVisitor) EnterOC_RemoveItem(c *parser.OC_RemoveItemContext) {}
 
-func (s *BaseVisitor) EnterOC_InQueryCall(c *parser.OC_InQueryCallContext) {}
+func (s *BaseVisitor) EnterOC_InQueryCall(c *parser.OC_InQueryCallContext) {
+	s.newUnsupportedRuleError(c)
+}
 
-func (s *BaseVisitor) EnterOC_StandaloneCall(c *parser.OC_StandaloneCallContext) {}
+func (s *BaseVisitor) EnterOC_StandaloneCall(c *parser.OC_StandaloneCallContext) {
+	s.newUnsupportedRuleError(c)
+}
 
 func (s *BaseVisitor) EnterOC_YieldItems(c *parser.OC_YieldItemsContext) {}
 
@@ -326,7 +336,9 @@ func (s *BaseVisitor) EnterOC_Limit(c *parser.OC_LimitContext) {}
 
 func (s *BaseVisitor) EnterOC_SortItem(c *parser.OC_SortItemContext) {}
 
-func (s *BaseVisitor) EnterOC_Hint(c *parser.OC_HintContext) {}
+func (s *BaseVisitor) EnterOC_Hint(c *parser.OC_HintContext) {
+	s.newUnsupportedRuleError(c)
+}
 
 func (s *BaseVisitor) EnterOC_StartPoint(c *parser.OC_StartPointContext) {}
 
@@ -424,7 +436,9 @@ func (s *BaseVisitor) EnterOC_UnaryAddOrSubtractExpression(c *parser.OC_UnaryAdd
 func (s *BaseVisitor) EnterOC_NonArithmeticOperatorExpression(c *parser.OC_NonArithmeticOperatorExpressionContext) {
 }
 
-func (s *BaseVisitor) EnterOC_ListOperatorExpression(c *parser.OC_ListOperatorExpressionContext) {}
+func (s *BaseVisitor) EnterOC_ListOperatorExpression(c *parser.OC_ListOperatorExpressionContext) {
+	s.newUnsupportedRuleError(c)
+}
 
 func (s *BaseVisitor) EnterOC_PropertyLookup(c *parser.OC_PropertyLookupContext) {}
 
@@ -432,9 +446,13 @@ func (s *BaseVisitor) EnterOC_Atom(c *parser.OC_AtomContext) {}
 
 func (s *BaseVisitor) EnterOC_CaseAlternative(c *parser.OC_CaseAlternativeContext) {}
 
-func (s *BaseVisitor) EnterOC_ListComprehension(c *parser.OC_ListComprehensionContext) {}
+func (s *BaseVisitor) EnterOC_ListComprehension(c *parser.OC_ListComprehensionContext) {
+	s.newUnsupportedRuleError(c)
+}
 
-func (s *BaseVisitor) EnterOC_PatternComprehension(c *parser.OC_PatternComprehensionContext) {}
+func (s *BaseVisitor) EnterOC_PatternComprehension(c *parser.OC_PatternComprehensionContext) {
+	s.newUnsupportedRuleError(c)
+}
 
 func (s *BaseVisitor) EnterOC_Quantifier(c *parser.OC_QuantifierContext) {}
 
